@@ -399,17 +399,20 @@ func (mi *MessageInfo) unmarshalPointerLazy(b []byte, p pointer, groupTag protow
 		}
 		b = b[n:]
 		end := start - len(b)
-		if lazyDecode && f != nil && f.isLazy {
-			if num != lastNum {
+		// Index the record as data of the lazy field, unless it was kept as an
+		// unknown field (a record with the field's number but another wire
+		// type): Marshal would otherwise emit it twice, once with the raw
+		// bytes of the lazy field and once with the unknown fields.
+		if lazyDecode && f != nil && f.isLazy && (err == nil || discardUnknown) {
+			if i := len(lazyIndex) - 1; i >= 0 && lazyIndex[i].FieldNum == uint32(num) && lazyIndex[i].End == uint32(pos) {
+				lazyIndex[i].End = uint32(end)
+				lazyIndex[i].MultipleContiguous = true
+			} else {
 				lazyIndex = append(lazyIndex, protolazy.IndexEntry{
 					FieldNum: uint32(num),
 					Start:    uint32(pos),
 					End:      uint32(end),
 				})
-			} else {
-				i := len(lazyIndex) - 1
-				lazyIndex[i].End = uint32(end)
-				lazyIndex[i].MultipleContiguous = true
 			}
 		}
 		if num < lastNum {
